@@ -84,6 +84,16 @@ impl ReqGen {
     pub fn bulk(&mut self, src: &mut Src) -> Vec<W> {
         let n = src.below(5);
         let mut ws: Vec<W> = (0..n).map(|_| self.w(src)).collect();
+        if src.chance(1, 2) {
+            // what put_many / del_many produce: distinct ids sharing ONE timestamp
+            let shared = self.stamp(src);
+            let mut seen = std::collections::BTreeSet::new();
+            ws.retain(|w| seen.insert(w.key));
+            for w in &mut ws {
+                w.stamp = shared;
+            }
+            return ws;
+        }
         match src.weighted(&[3, 2, 1, 1]) {
             0 => {
                 // distinct ids
@@ -210,8 +220,8 @@ impl Prop for C02 {
     fn rule(&self) -> &'static str {
         "one real KeyspaceGroup (actors + clock) on an inspectable fault-injecting store; 1-25 requests \
          Set|MultiSet|Del|MultiDel|Purge over 1-2 keyspaces with stamps from 1-3 origins spread over up to 6 h in any \
-         arrival order, both sources; bulk requests with distinct ids or repeated ids in ascending / descending \
-         stamp order; storage faults: fail before writing, or write the first j items and report exactly those; \
+         arrival order, both sources; bulk requests with distinct ids sharing one stamp (what put_many/del_many send), distinct ids with own stamps, \
+         or repeated ids in ascending / descending stamp order; storage faults: fail before writing, or write the first j items and report exactly those; \
          oracle after EVERY request: {(id,stamp,tombstone)} held by storage == live+tombstone entries of the \
          deserialised Serialize reply, and live ids have bytes in storage; non-trivial = a request older than an \
          applied stamp of the same origin on the same source, or an injected failure, or an effective purge"
@@ -273,6 +283,12 @@ async fn run(case: &Case) -> Outcome {
             purged = true;
         }
 
+        ensure!(
+            store.inner.lock().removed_live == 0,
+            "purge-removed-live-document",
+            "request {i} ({}) made the node ask storage to remove the tombstone of an id that holds a live document",
+            req_json(req)
+        );
         for k in 0..2 {
             let name = ks_name(k);
             let set = actor_view(&group, &name).await;
